@@ -159,7 +159,7 @@ Proof.
     split; [intros y (Hy & _); exact Hy |].
     split; [intros e; cbn [In]; intuition congruence |].
     split; [reflexivity |].
-    cbn [free]. rewrite N.eqb_refl. reflexivity.
+    cbn [free]. unfold free_match. rewrite N.eqb_refl. reflexivity.
   - cbn [chain] in Hc. destruct Hc as (H1 & H2 & H3).
     unfold fit_guard, gap_of in H. destruct (size <=? o - lo) eqn:E.
     + inversion H; subst t' x. apply N.leb_le in E.
@@ -172,7 +172,7 @@ Proof.
       split; [intros y (Hy & _); exact Hy |].
       split; [intros e; cbn [In]; intuition congruence |].
       split; [reflexivity |].
-      cbn [free]. rewrite N.eqb_refl. reflexivity.
+      cbn [free]. unfold free_match. rewrite N.eqb_refl. reflexivity.
     + apply N.leb_gt in E.
       destruct (scan size total (next_end o l) r) as [[r' x']|] eqn:Es; [| discriminate].
       inversion H; subst t' x. unfold next_end in Es.
@@ -192,7 +192,7 @@ Proof.
       split.
       { intros e. cbn [In]. rewrite Mem. tauto. }
       split; [cbn [length]; rewrite Len; reflexivity |].
-      cbn [free]. destruct (o =? x') eqn:Eo; [apply N.eqb_eq in Eo; lia |].
+      cbn [free]. unfold free_match. destruct (o =? x') eqn:Eo; [apply N.eqb_eq in Eo; lia |].
       rewrite Fr. reflexivity.
 Qed.
 
@@ -265,7 +265,7 @@ Qed.
 Lemma free_chain : forall t lo hi x t', chain lo t hi -> free t x = Some t' -> chain lo t' hi.
 Proof.
   induction t as [|[o l] r IH]; intros lo hi x t' Hc H; cbn [free] in H; [discriminate |].
-  cbn [chain] in Hc. destruct Hc as (H1 & H2 & H3).
+  cbn [chain] in Hc. destruct Hc as (H1 & H2 & H3). unfold free_match in H.
   destruct (o =? x) eqn:E.
   - inversion H; subst t'. eapply chain_weaken; [| exact H3]. lia.
   - destruct (free r x) as [r'|] eqn:Er; [| discriminate]. inversion H; subst t'.
@@ -274,7 +274,7 @@ Qed.
 
 Lemma free_length : forall t x t', free t x = Some t' -> length t = S (length t').
 Proof.
-  induction t as [|[o l] r IH]; intros x t' H; cbn [free] in H; [discriminate |].
+  induction t as [|[o l] r IH]; intros x t' H; cbn [free] in H; [discriminate |]. unfold free_match in H.
   destruct (o =? x) eqn:E.
   - inversion H; subst; reflexivity.
   - destruct (free r x) as [r'|] eqn:Er; [| discriminate]. inversion H; subst t'.
@@ -285,7 +285,7 @@ Lemma free_In : forall t lo hi x t', chain lo t hi -> free t x = Some t' ->
   forall e, In e t' <-> In e t /\ fst e <> x.
 Proof.
   induction t as [|[o l] r IH]; intros lo hi x t' Hc H e; cbn [free] in H; [discriminate |].
-  cbn [chain] in Hc. destruct Hc as (H1 & H2 & H3).
+  cbn [chain] in Hc. destruct Hc as (H1 & H2 & H3). unfold free_match in H.
   destruct (o =? x) eqn:E.
   - inversion H; subst t'. apply N.eqb_eq in E. subst x. cbn [In]. split.
     + intros Hin. split; [right; exact Hin |].
@@ -299,7 +299,7 @@ Qed.
 
 Lemma free_none_iff : forall t x, free t x = None <-> ~ exists l, In (x, l) t.
 Proof.
-  induction t as [|[o l] r IH]; intros x; cbn [free].
+  induction t as [|[o l] r IH]; intros x; cbn [free]; unfold free_match.
   - split; [intros _ [l []] | reflexivity].
   - destruct (o =? x) eqn:E.
     + apply N.eqb_eq in E. subst. split; [discriminate |].
@@ -360,6 +360,27 @@ Qed.
 
 Lemma Inv_run : forall total ops, HEADER_SIZE <= total -> Inv total (run total ops).
 Proof. intros total ops Ht. apply (Inv_run_from total ops [] Ht). apply Inv_nil; exact Ht. Qed.
+
+(* outcomes of the allocate operation for every integer size *)
+Lemma alloc_outcomes : forall total t size, Inv total t ->
+  (snd (step total t (OAlloc size)) = RNone <->
+     (0 < size)%Z /\ (MAX_ALLOCS <= tlen t \/ ~ exists x, fits total t x (Z.to_N size))) /\
+  (snd (step total t (OAlloc size)) = RError <-> (size <= 0)%Z) /\
+  (forall r, snd (step total t (OAlloc size)) = r -> r = RNone \/ r = RError -> fst (step total t (OAlloc size)) = t).
+Proof.
+  intros total t size HI. cbn [step]. unfold size_guard.
+  destruct (size <=? 0)%Z eqn:Eg.
+  - apply Z.leb_le in Eg. cbn [fst snd]. split; [split; [discriminate | lia] |].
+    split; [split; [intros _; exact Eg | reflexivity] | reflexivity].
+  - apply Z.leb_gt in Eg. assert (Hs : 0 < Z.to_N size) by lia.
+    pose proof (allocate_none_iff total t (Z.to_N size) HI Hs) as Hn.
+    destruct (allocate total t (Z.to_N size)) as [[t' x]|] eqn:Ea; cbn [fst snd].
+    + split; [split; [discriminate | intros [_ Hc]; apply Hn in Hc; discriminate] |].
+      split; [split; [discriminate | lia] |].
+      intros r <- [Hr | Hr]; discriminate.
+    + split; [split; [intros _; split; [exact Eg | apply Hn; reflexivity] | reflexivity] |].
+      split; [split; [discriminate | lia] | reflexivity].
+Qed.
 
 Lemma last_cons : forall (A : Type) (l : list A) (x d : A), last (x :: l) d = last l x.
 Proof.
@@ -425,7 +446,7 @@ Lemma sink_over_stays : forall cs s, s_over s = true ->
 Proof.
   induction cs as [|c r IH]; intros s H; cbn [fold_left].
   - destruct s; cbn in *; subst; reflexivity.
-  - unfold sink_write at 2. rewrite H. cbn [orb]. rewrite IH; reflexivity.
+  - unfold sink_write at 2, sink_guard. rewrite H. cbn [orb]. rewrite IH; reflexivity.
 Qed.
 
 (* start <= pos <= limit, and memory differs from the initial one only in [start, pos) *)
@@ -436,20 +457,19 @@ Lemma sink_fold : forall cs s start m0,
   s_limit s' = s_limit s /\ start <= s_pos s' /\ s_pos s' <= s_limit s' /\
   (forall a, ~ (start <= a < s_pos s') -> s_mem s' a = m0 a).
 Proof.
-  induction cs as [|c r IH]; intros s start m0 H1 H2 H3; cbn [fold_left].
-  - repeat split; assumption.
-  - unfold sink_write at 2.
-    destruct (s_over s || (s_limit s <? s_pos s + c_len c)) eqn:E.
-    + rewrite sink_over_stays by reflexivity. cbn. Show. repeat split; first [assumption | reflexivity].
-    + apply orb_false_iff in E. destruct E as [_ E]. apply N.ltb_ge in E.
-      match goal with |- let s' := fold_left _ _ ?s1 in _ =>
-        specialize (IH s1 start m0) end.
-      cbn [s_pos s_limit s_mem] in IH.
-      destruct IH as (A & B & C & D).
-      * lia.
-      * exact E.
-      * intros a Ha. rewrite store_outside by lia. apply H3. lia.
-      * cbv zeta. repeat split; assumption.
+  induction cs as [|c r IH]; intros s start m0 H1 H2 H3; cbn [fold_left]; cbv zeta.
+  - repeat split; first [assumption | reflexivity].
+  - assert (S1 : s_limit (sink_write s c) = s_limit s /\ start <= s_pos (sink_write s c) /\
+                 s_pos (sink_write s c) <= s_limit s /\
+                 forall a, ~ (start <= a < s_pos (sink_write s c)) -> s_mem (sink_write s c) a = m0 a).
+    { unfold sink_write, sink_guard. destruct (s_over s || (s_limit s <? s_pos s + c_len c)) eqn:E; cbn [s_pos s_limit s_mem].
+      - repeat split; first [assumption | reflexivity].
+      - apply orb_false_iff in E. destruct E as [_ E]. apply N.ltb_ge in E.
+        repeat split; try lia. intros a Ha. rewrite store_outside by lia. apply H3. lia. }
+    destruct S1 as (A & B & C & D).
+    assert (C' : s_pos (sink_write s c) <= s_limit (sink_write s c)) by (rewrite A; exact C).
+    destruct (IH (sink_write s c) start m0 B C' D) as (A1 & B1 & C1 & D1).
+    repeat split; try assumption. rewrite A1. exact A.
 Qed.
 
 (* the sink overflows exactly when the stream is longer than what remains *)
@@ -458,18 +478,19 @@ Lemma sink_over_iff : forall cs s, s_over s = false -> s_pos s <= s_limit s ->
   (s_over s' = true <-> s_limit s < s_pos s + sum_len cs) /\
   (s_over s' = false -> s_pos s' = s_pos s + sum_len cs).
 Proof.
-  induction cs as [|c r IH]; intros s Ho Hp; cbn [fold_left sum_len].
-  - cbv zeta. rewrite Ho. split; [split; [discriminate | lia] | intros _; lia].
-  - unfold sink_write at 2 4. rewrite Ho. cbn [orb].
-    destruct (s_limit s <? s_pos s + c_len c) eqn:E.
-    + rewrite sink_over_stays by reflexivity. cbn. apply N.ltb_lt in E.
-      split; [split; [intros _; lia | reflexivity] | discriminate].
-    + apply N.ltb_ge in E.
-      match goal with |- let s' := fold_left _ _ ?s1 in _ => specialize (IH s1 eq_refl) end.
-      cbn [s_pos s_limit] in IH. specialize (IH E). cbv zeta in *.
-      destruct IH as [I1 I2]. split.
-      * rewrite I1. lia.
-      * intros H. rewrite (I2 H). lia.
+  induction cs as [|c r IH]; intros s Ho Hp; cbn [fold_left sum_len]; cbv zeta.
+  - rewrite Ho. split; [split; [discriminate | lia] | intros _; lia].
+  - destruct (s_limit s <? s_pos s + c_len c) eqn:E.
+    + assert (S1 : sink_write s c = mk_sink (s_pos s) (s_limit s) true (s_mem s))
+        by (unfold sink_write, sink_guard; rewrite Ho, E; reflexivity).
+      rewrite S1. rewrite sink_over_stays by reflexivity. cbn [s_over s_pos s_limit].
+      apply N.ltb_lt in E. split; [split; [intros _; lia | reflexivity] | discriminate].
+    + assert (S1 : sink_write s c = mk_sink (s_pos s + c_len c) (s_limit s) false (store (s_mem s) (s_pos s) c))
+        by (unfold sink_write, sink_guard; rewrite Ho, E; reflexivity).
+      rewrite S1. apply N.ltb_ge in E.
+      destruct (IH (mk_sink (s_pos s + c_len c) (s_limit s) false (store (s_mem s) (s_pos s) c)) eq_refl E) as [I1 I2].
+      cbn [s_pos s_limit] in I1, I2.
+      split; [rewrite I1; lia | intros H; rewrite (I2 H); lia].
 Qed.
 
 (* ------------------------------------------------------------------ *)
@@ -499,11 +520,11 @@ Lemma write_contained : forall total t m est chunks t' m' r,
       (allocate total t est = None \/ est < sum_len chunks)
   end.
 Proof.
-  intros total t m est chunks t' m' r HI Hest H. unfold allocate_and_write in H.
+  intros total t m est chunks t' m' r HI Hest H. unfold allocate_and_write, sink_limit, bytes_written in H.
   destruct (allocate total t est) as [[t1 off]|] eqn:Ea.
-  2:{ inversion H; subst. repeat split; try assumption; try (intros a _; reflexivity).
-      - intros e _ a _; reflexivity.
-      - left; reflexivity. }
+  2:{ inversion H; subst. split; [exact HI |]. split; [intros e _ a _; reflexivity |].
+      split; [intros a _; reflexivity |]. split; [intros a _; reflexivity |].
+      split; [reflexivity | left; reflexivity]. }
   destruct (allocate_some _ _ _ _ _ HI Hest Ea) as (HI1 & F & _ & Mem & Fr).
   destruct F as (F1 & F2 & F3).
   set (s0 := mk_sink off (off + est) false m) in H.
@@ -522,16 +543,31 @@ Proof.
   { intros a Ha. apply Un. lia. }
   destruct (s_over s') eqn:Eo.
   - rewrite Fr in H. inversion H; subst t' m' r.
-    repeat split; try assumption.
-    right. apply O1. reflexivity.
+    split; [exact HI |]. split; [exact Hlive |]. split; [exact Hhdr |]. split; [exact Hout |].
+    split; [reflexivity |]. right. apply proj1 in O1. specialize (O1 eq_refl). lia.
   - inversion H; subst t' m' r.
     specialize (O2 eq_refl).
-    repeat split; try assumption.
-    + lia.
-    + lia.
-    + apply Mem.
-    + apply Mem.
-    + intros a Ha. apply Un. lia.
+    split; [exact HI1 |]. split; [exact Hlive |]. split; [exact Hhdr |]. split; [exact Hout |].
+    split; [lia |]. split; [lia |].
+    split; [unfold fits; repeat split; assumption |].
+    split; [exact Mem |].
+    intros a Ha. apply Un. lia.
+Qed.
+
+(* on the table, a write is the history [allocate est] or the empty history *)
+Lemma write_table_is_history : forall total t m est chunks,
+  Inv total t -> 0 < est ->
+  let t' := fst (fst (allocate_and_write total t m est chunks)) in
+  t' = t \/ t' = run_from total t [OAlloc (Z.of_N est)].
+Proof.
+  intros total t m est chunks HI Hest. cbv zeta. unfold allocate_and_write.
+  destruct (allocate total t est) as [[t1 off]|] eqn:Ea; [| left; reflexivity].
+  destruct (allocate_some _ _ _ _ _ HI Hest Ea) as (_ & _ & _ & _ & Fr).
+  destruct (s_over _).
+  - left. rewrite Fr. reflexivity.
+  - right. cbn [fst]. unfold run_from. cbn [fold_left]. unfold step_table. cbn [step].
+    assert (Hg : size_guard (Z.of_N est) = false) by (unfold size_guard; apply Z.leb_gt; lia).
+    rewrite Hg, N2Z.id, Ea. reflexivity.
 Qed.
 
 Lemma copy_contained : forall total t m c t' m' r,
@@ -551,19 +587,20 @@ Lemma copy_contained : forall total t m c t' m' r,
 Proof.
   intros total t m c t' m' r HI Hlen H. unfold allocate_and_copy in H.
   destruct (allocate total t (c_len c)) as [[t1 off]|] eqn:Ea.
-  2:{ inversion H; subst. repeat split; try assumption; try (intros a _; reflexivity).
-      intros e _ a _; reflexivity. }
+  2:{ inversion H; subst. split; [exact HI |]. split; [intros e _ a _; reflexivity |].
+      split; [intros a _; reflexivity |]. split; [intros a _; reflexivity |].
+      split; reflexivity. }
   destruct (allocate_some _ _ _ _ _ HI Hlen Ea) as (HI1 & F & _ & Mem & _).
   inversion H; subst t' m' r.
   pose proof F as (F1 & F2 & F3).
-  repeat split; try assumption.
-  - intros [o l] Hin a Ha. unfold in_region in Ha. cbn [fst snd] in Ha.
-    apply store_outside. destruct (F3 o l Hin); lia.
-  - intros a Ha. apply store_outside. lia.
-  - intros a Ha. apply store_outside. lia.
-  - apply Mem.
-  - apply Mem.
-  - intros a Ha. apply store_outside. exact Ha.
+  split; [exact HI1 |].
+  split.
+  { intros [o l] Hin a Ha. unfold in_region in Ha. cbn [fst snd] in Ha.
+    apply store_outside. destruct (F3 o l Hin); lia. }
+  split; [intros a Ha; apply store_outside; lia |].
+  split; [intros a Ha; apply store_outside; lia |].
+  split; [reflexivity |]. split; [exact F |]. split; [exact Mem |].
+  intros a Ha. apply store_outside. exact Ha.
 Qed.
 
 (* the fixed overhead suffices exactly when the non-batch part of the stream is at most STREAM_OVERHEAD *)
